@@ -1,6 +1,9 @@
 """C02 - expression text parses to the tree the precedence rules dictate."""
 
 import itertools
+import json
+import os
+import re
 from fractions import Fraction
 
 import fw
@@ -12,24 +15,54 @@ DRIVER = 'drv_c02'
 DRIVER_ROOT = 'Drv.C02'
 GEN = ['Reorder', 'Regex']
 THEOREMS = [
+    # token level (binary chain)
     'C02.reorder_is_prec', 'C02.chain_flat', 'C02.chain_wf', 'C02.rebuild', 'C02.wf_unique',
     'C02.chain_is_the_prec_tree', 'C02.unary_group_are_operands',
+    # text level
+    'C02.regex_sources_pinned', 'C02.parse_uses_chain', 'C02.parse_deep_wf', 'C02.unary_tighter', 'C02.group_overrides',
+    'C02.fuel_sufficient', 'C02.reject_is_parser_error', 'C02.accept_faithful',
 ]
 ASSUMPTIONS = [
-    'CPython re engine: the hand-written scanners of the model re-implement each anchored token pattern; tied by Gen/Regex + correspondence',
-    'float(text) is the correctly rounded value of the decimal literal',
+    'CPython re engine: the hand-written scanners of the model (BareModel/ExprScan.lean) re-implement each anchored token pattern, '
+    'including the two observable backtracking cases (string escapes, bracketed names); tied by Gen/Regex (pattern sources pinned by '
+    'theorem regex_sources_pinned) + correspondence streams expr/tokens',
+    'float(text) is the correctly rounded value of the decimal literal (the model keeps the exact rational; the harness rounds it)',
+    r'\s is modelled exactly (29 code points); \w and \d are modelled on ASCII only: a non-ASCII letter/digit OUTSIDE a string literal or '
+    'bracketed name (e.g. the identifier "a\u00e9", the number "\u0663") is outside the model - such texts are excluded from the '
+    'model/implementation comparison and checked on the implementation only (reference parser with the full Unicode classes + '
+    '"nothing but BareScriptParserError escapes")',
+    'number literals with an exponent of more than 3 digits are excluded from the model comparison (exact rational 10^n in the driver); '
+    'lone surrogate code points are not generated (JSON transport)',
+    'Python recursion limit: nesting is kept <= 50 (RecursionError for nesting > ~300 is outside the model, DESIGN section 6)',
+    'catastrophic backtracking of _R_EXPR_STRING on an unterminated string with a long run of backslashes (time ~1.6^n) is outside the '
+    'model (time is not modelled): generators keep <= 20 backslashes per text',
 ]
+TRUSTED = ['reference recursive-descent/precedence-climbing parser and generators in harness/props/C02.py (the property oracle)']
 
 OPS = ['**', '*', '/', '%', '+', '-', '<=', '<', '>=', '>', '==', '!=', '&&', '||']
 PREC = {'**': 8, '*': 7, '/': 7, '%': 7, '+': 6, '-': 6, '<=': 5, '<': 5, '>=': 5, '>': 5, '==': 4, '!=': 4, '&&': 3, '||': 2}
+MAX_BACKSLASHES = 20
+
+
+# ---------------------------------------------------------------------------------------------------------------------
+# canonical forms
+# ---------------------------------------------------------------------------------------------------------------------
+
+def canon_number(x):
+    """float -> exact [num, den] (or a kind string for the non-finite results of float(text))."""
+    if x != x:
+        return 'nan'
+    if x in (float('inf'), float('-inf')):
+        return 'inf' if x > 0 else '-inf'
+    fr = Fraction(x)
+    return [fr.numerator, fr.denominator]
 
 
 def canon_expr(e):
     """Implementation expression model -> protocol form (numbers as exact [num, den])."""
     (k, v), = e.items()
     if k == 'number':
-        fr = Fraction(v)
-        return {'number': [fr.numerator, fr.denominator]}
+        return {'number': canon_number(v)}
     if k in ('string', 'variable'):
         return {k: v}
     if k == 'group':
@@ -43,12 +76,19 @@ def canon_expr(e):
     raise ValueError(k)
 
 
+def round_fraction(num, den):
+    """The double nearest to num/den (int / int is correctly rounded in CPython), as a canonical number."""
+    try:
+        return canon_number(num / den)
+    except OverflowError:
+        return 'inf' if (num > 0) == (den > 0) else '-inf'
+
+
 def round_numbers(e):
     """Model expression (exact rationals) -> with each literal rounded to the double `float(text)` yields."""
     (k, v), = e.items()
     if k == 'number':
-        fr = Fraction(v[0] / v[1]) if v[1] != 1 else Fraction(float(v[0]))
-        return {'number': [fr.numerator, fr.denominator]}
+        return {'number': round_fraction(v[0], v[1])}
     if k in ('string', 'variable'):
         return e
     if k == 'group':
@@ -58,6 +98,28 @@ def round_numbers(e):
     if k == 'binary':
         return {'binary': {'left': round_numbers(v['left']), 'op': v['op'], 'right': round_numbers(v['right'])}}
     return {'function': {'args': [round_numbers(a) for a in v['args']], 'name': v['name']}}
+
+
+def expr_stats(e, depth=1):
+    """(nesting depth, number of nodes, set of constructor kinds)"""
+    (k, v), = e.items()
+    if k in ('number', 'string', 'variable'):
+        return depth, 1, {k}
+    if k == 'group':
+        subs = [v]
+    elif k == 'unary':
+        subs = [v['expr']]
+    elif k == 'binary':
+        subs = [v['left'], v['right']]
+    else:
+        subs = v['args']
+    d, n, ks = depth, 1, {k}
+    for s in subs:
+        d1, n1, k1 = expr_stats(s, depth + 1)
+        d = max(d, d1)
+        n += n1
+        ks |= k1
+    return d, n, ks
 
 
 def climb(first, rest):
@@ -76,10 +138,460 @@ def climb(first, rest):
     return parse(first, 0)
 
 
+# ---------------------------------------------------------------------------------------------------------------------
+# The implementation, observed
+# ---------------------------------------------------------------------------------------------------------------------
+
+def run_impl(text):
+    """-> ('ok', canonical tree) | ('err', error text, column, line == text) | ('exc', class name)"""
+    parser = fw.impl()['parser']
+    try:
+        return ('ok', canon_expr(parser.parse_expression(text)))
+    except parser.BareScriptParserError as exc:
+        return ('err', exc.error, exc.column_number, exc.line == text and exc.line_number is None)
+    except Exception as exc:  # pylint: disable=broad-except
+        return ('exc', type(exc).__name__)
+
+
+def impl_out(res):
+    """comparison form of run_impl's result (same shape as the driver's answer to op 'parse')"""
+    if res[0] == 'ok':
+        return {'expr': res[1]}
+    if res[0] == 'err':
+        return {'error': res[1], 'column': res[2]}
+    return {'exception': res[1]}
+
+
+def model_out(resp):
+    if 'expr' in resp:
+        return {'expr': round_numbers(resp['expr'])}
+    return resp
+
+
+# ---------------------------------------------------------------------------------------------------------------------
+# Reference parser: scannerless recursive descent + precedence climbing, written from the language reference
+# (independent of parser.py's spine re-ordering; full Unicode \s \w \d of the re module)
+# ---------------------------------------------------------------------------------------------------------------------
+
+class Reject(Exception):
+    pass
+
+
+_REF_WS = re.compile(r'\s*')
+_REF_OP = re.compile(r'\*\*|<=|>=|==|!=|&&|\|\||[-+*/%<>]')
+_REF_CALL = re.compile(r'([A-Za-z_]\w+)\s*\(')
+_REF_NUM = re.compile(r'\+?\d+(?:\.\d*)?(?:e[+-]\d+)?')
+_REF_SQ = re.compile(r"'((?:\\\\|\\'|[^'])*)'")
+_REF_DQ = re.compile(r'"((?:\\\\|\\"|[^"])*)"')
+_REF_ID = re.compile(r'[A-Za-z_]\w*')
+_REF_BR = re.compile(r'\[\s*((?:\\\]|[^\]])+)\s*\]')
+
+
+def _unescape(raw, q):
+    out = []
+    i = 0
+    while i < len(raw):
+        if raw[i] == '\\' and i + 1 < len(raw) and raw[i + 1] in ('\\', q):
+            out.append(raw[i + 1])
+            i += 2
+        else:
+            out.append(raw[i])
+            i += 1
+    return ''.join(out)
+
+
+def ref_parse(text):
+    """-> canonical tree (numbers rounded like float()) or raises Reject"""
+    pos = [0]
+
+    def ws():
+        pos[0] = _REF_WS.match(text, pos[0]).end()
+
+    def operand():
+        ws()
+        i = pos[0]
+        if i >= len(text):
+            raise Reject()
+        c = text[i]
+        if c == '(':
+            pos[0] = i + 1
+            e = expr(0)
+            ws()
+            if pos[0] >= len(text) or text[pos[0]] != ')':
+                raise Reject()
+            pos[0] += 1
+            return {'group': e}
+        if c in '!-':
+            pos[0] = i + 1
+            return {'unary': {'expr': operand(), 'op': c}}
+        m = _REF_CALL.match(text, i)
+        if m:
+            pos[0] = m.end()
+            args = []
+            while True:
+                ws()
+                if pos[0] < len(text) and text[pos[0]] == ')':
+                    pos[0] += 1
+                    break
+                if args:
+                    if pos[0] >= len(text) or text[pos[0]] != ',':
+                        raise Reject()
+                    pos[0] += 1
+                args.append(expr(0))
+            return {'function': {'args': args, 'name': m.group(1)}}
+        m = _REF_NUM.match(text, i)
+        if m:
+            pos[0] = m.end()
+            return {'number': canon_number(float(m.group(0)))}
+        m = _REF_SQ.match(text, i)
+        if m:
+            pos[0] = m.end()
+            return {'string': _unescape(m.group(1), "'")}
+        m = _REF_DQ.match(text, i)
+        if m:
+            pos[0] = m.end()
+            return {'string': _unescape(m.group(1), '"')}
+        m = _REF_ID.match(text, i)
+        if m:
+            pos[0] = m.end()
+            return {'variable': m.group(0)}
+        m = _REF_BR.match(text, i)
+        if m:
+            pos[0] = m.end()
+            return {'variable': _unescape(m.group(1), ']')}
+        raise Reject()
+
+    def expr(min_prec):
+        lhs = operand()
+        while True:
+            save = pos[0]
+            ws()
+            m = _REF_OP.match(text, pos[0])
+            if m is None or PREC[m.group(0)] < min_prec:
+                pos[0] = save
+                return lhs
+            pos[0] = m.end()
+            rhs = expr(PREC[m.group(0)] + 1)
+            lhs = {'binary': {'left': lhs, 'op': m.group(0), 'right': rhs}}
+
+    e = expr(0)
+    ws()
+    if pos[0] != len(text):
+        raise Reject()
+    return e
+
+
+def ref_out(text):
+    try:
+        return {'expr': ref_parse(text)}
+    except Reject:
+        return {'reject': True}
+
+
+def impl_oracles(text, res=None, expected=None):
+    """The property's oracles run on the implementation alone. -> [(oracle, expected, actual)] of the failing ones."""
+    res = res if res is not None else run_impl(text)
+    bad = []
+    if res[0] == 'exc':
+        bad.append(('only-parser-error-escapes', 'expression model or BareScriptParserError', res[1]))
+        return bad
+    ref = ref_out(text)
+    if res[0] == 'ok':
+        if ref != {'expr': res[1]}:
+            bad.append(('reference-parse', ref, {'expr': res[1]}))
+    else:
+        _, err, col, same_line = res
+        if 'expr' in ref:
+            bad.append(('reference-parse', ref, {'error': err, 'column': col}))
+        if err not in ('Syntax error', 'Unmatched parenthesis') or not isinstance(col, int) or not 1 <= col <= len(text) + 1 or not same_line:
+            bad.append(('error-shape', 'Syntax error|Unmatched parenthesis, 1 <= column <= len+1, line == text',
+                        {'error': err, 'column': col, 'line_is_text': same_line}))
+    if expected is not None and impl_out(res) != {'expr': expected}:
+        bad.append(('tree-by-construction', {'expr': expected}, impl_out(res)))
+    return bad
+
+
+_NONASCII_WORD = re.compile(r'[^\x00-\x7f]')
+
+
+def in_model(text):
+    """Conservative: no non-ASCII character that is a word character (\\w, which includes \\d), no surrogates, short exponents."""
+    for m in _NONASCII_WORD.finditer(text):
+        c = m.group(0)
+        if 0xd800 <= ord(c) <= 0xdfff or re.match(r'\w', c):
+            return False
+    if re.search(r'e[+-]\d{4}', text):
+        return False
+    return text.count('\\') <= MAX_BACKSLASHES
+
+
+# ---------------------------------------------------------------------------------------------------------------------
+# Generators
+# ---------------------------------------------------------------------------------------------------------------------
+
+WS_COMMON = ['', '', '', '', '', ' ', ' ', ' ', '  ', '\t', ' \t ']
+WS_RARE = ['\n', '\r\n', '\x0b', '\x0c', '\x1c', '\x1d', '\x1e', '\x1f', '\x85', '\xa0', '\u1680', '\u2000', '\u2003', '\u200a',
+           '\u2028', '\u2029', '\u202f', '\u205f', '\u3000', ' \n\t ']
+IDENTS = ['a', 'b', 'x', 'y', 'e', 'e5', '_', '__', '_x1', 'abc', 'fooBar', 'x_1', 'if', 'true', 'false', 'null', 'while', 'endif',
+          'A', 'Z9', 'jump', 'function', 'e1', 'E']
+FUNCS = ['ff', 'if', 'mathMax', 'arrayNew', '__', '_1', 'a1', 'fn', 'objectGet', 'ab_', 'E5']
+STR_CHARS = list('abc xyz019+-*/()[],.!<>=&|#:;') + ['\t', '\u00e9', '\u20ac', '\u0663', '\u4e2d', '\U0001f600', '\xa0', '\n']
+BR_CHARS = list('abc xyz019+-*/()[,.!<>=&|\'"') + ['\t', '\u00e9', '\u20ac', '\u0663', '\U0001f600']
+
+
+class Gen:
+    """Grammar-directed generator.  Every generated piece is (token list, exact tree, impl-rounded tree is derived)."""
+
+    def __init__(self, rng, rare_ws=0.06, unicode_letters=True):
+        self.rng = rng
+        self.rare_ws = rare_ws
+        # non-ASCII letters/digits inside string literals and bracketed names (inside the model as long as they stay there)
+        self.str_chars = STR_CHARS if unicode_letters else [c for c in STR_CHARS if c.isascii() or not re.match(r'\w', c)]
+        self.br_chars = BR_CHARS if unicode_letters else [c for c in BR_CHARS if c.isascii() or not re.match(r'\w', c)]
+
+    def ws(self):
+        r = self.rng
+        if r.random() < self.rare_ws:
+            return r.choice(WS_RARE)
+        return r.choice(WS_COMMON)
+
+    def number(self):
+        r = self.rng
+        k = r.random()
+        if k < 0.35:
+            ip = str(r.randint(0, 9))
+        elif k < 0.7:
+            ip = str(r.randint(0, 10 ** r.randint(1, 6)))
+        elif k < 0.85:
+            ip = r.choice(['007', '00', '9007199254740993', '9007199254740992', '18446744073709551616', '123456789012345678901234567890'])
+        else:
+            ip = ''.join(r.choice('0123456789') for _ in range(r.randint(1, 25)))
+        text = ip
+        fp = ''
+        if r.random() < 0.4:
+            fp = ''.join(r.choice('0123456789') for _ in range(r.choice([0, 0, 1, 1, 2, 3, 6, 17])))
+            text += '.' + fp
+        ex = 0
+        if r.random() < 0.3:
+            sign = r.choice('+-')
+            ed = r.choice([str(r.randint(0, 30)), '0' * r.randint(1, 2) + str(r.randint(0, 9)), r.choice(['308', '309', '323', '324', '400', '999'])])
+            ex = int(sign + ed)
+            text += 'e' + sign + ed
+        if r.random() < 0.15:
+            text = '+' + text
+        val = Fraction(int(ip + fp)) * Fraction(10) ** (ex - len(fp))
+        return [text], {'number': [val.numerator, val.denominator]}
+
+    def string(self):
+        r = self.rng
+        q = r.choice('\'"')
+        out = []
+        val = []
+        n = r.choice([0, 1, 1, 2, 3, 5, 8])
+        i = 0
+        budget = 4
+        while i < n:
+            i += 1
+            k = r.random()
+            if k < 0.12:
+                out.append('\\' + q)
+                val.append(q)
+            elif k < 0.2 and budget:
+                budget -= 1
+                out.append('\\\\')
+                val.append('\\')
+            elif k < 0.26:
+                o = '"' if q == "'" else "'"
+                out.append(o)
+                val.append(o)
+            elif k < 0.31 and budget:
+                budget -= 1
+                # a lone backslash in front of an ordinary character stays
+                c = r.choice('nrt0abx ')
+                out.append('\\' + c)
+                val.append('\\' + c)
+            else:
+                c = r.choice(self.str_chars)
+                out.append(c)
+                val.append(c)
+        return [q + ''.join(out) + q], {'string': ''.join(val)}
+
+    def ident(self):
+        r = self.rng
+        if r.random() < 0.7:
+            name = r.choice(IDENTS)
+        else:
+            name = r.choice('abcxyzABC_') + ''.join(r.choice('abcxyz_0123456789ABC') for _ in range(r.randint(0, 8)))
+        return [name], {'variable': name}
+
+    def bracket(self):
+        r = self.rng
+        n = r.choice([1, 1, 2, 3, 5, 9])
+        out = []
+        val = []
+        for i in range(n):
+            k = r.random()
+            if k < 0.12:
+                out.append('\\]')
+                val.append(']')
+            elif k < 0.16 and i + 1 < n:
+                out.append('\\x')
+                val.append('\\x')
+            else:
+                c = r.choice(self.br_chars)
+                if i == 0 and c.isspace():
+                    c = 'v'
+                out.append(c)
+                val.append(c)
+        lead = r.choice(['', '', '', ' ', '  ', '\t', '\u3000'])
+        return ['[' + lead + ''.join(out) + ']'], {'variable': ''.join(val)}
+
+    def call(self, depth, group_depth):
+        r = self.rng
+        name = r.choice(FUNCS)
+        toks = [name + r.choice(['', '', '', ' ', '\t']) + '(']
+        args = []
+        nargs = r.choice([0, 1, 1, 2, 2, 3, 4])
+        for i in range(nargs):
+            if i:
+                toks.append(',')
+            t, e = self.binary(depth + 1, group_depth + 1)
+            toks += t
+            args.append(e)
+        toks.append(')')
+        return toks, {'function': {'args': args, 'name': name}}
+
+    def operand(self, depth, group_depth, maxdepth=8):
+        r = self.rng
+        leaf = depth >= maxdepth or group_depth >= 45
+        k = r.random()
+        if not leaf and k < 0.16:
+            t, e = self.binary(depth + 1, group_depth + 1, maxdepth)
+            return ['('] + t + [')'], {'group': e}
+        if not leaf and k < 0.30:
+            return self.call(depth, group_depth)
+        if not leaf and k < 0.42:
+            op = r.choice('!-')
+            t, e = self.operand(depth + 1, group_depth + 1, maxdepth)
+            return [op] + t, {'unary': {'expr': e, 'op': op}}
+        k = r.random()
+        if k < 0.3:
+            return self.number()
+        if k < 0.5:
+            return self.string()
+        if k < 0.85:
+            return self.ident()
+        return self.bracket()
+
+    def binary(self, depth, group_depth=0, maxdepth=8):
+        r = self.rng
+        n = r.choice([0, 0, 1, 1, 1, 2, 2, 3, 4, 6] if depth <= 2 else [0, 0, 0, 1, 1, 2, 3]) if depth < maxdepth else r.choice([0, 0, 1])
+        t0, e0 = self.operand(depth, group_depth, maxdepth)
+        toks = list(t0)
+        rest = []
+        for _ in range(n):
+            op = r.choice(OPS)
+            t, e = self.operand(depth, group_depth, maxdepth)
+            toks.append(op)
+            toks += t
+            rest.append((op, e))
+        return toks, climb(e0, rest)
+
+    def render(self, toks):
+        return self.ws() + ''.join(t + self.ws() for t in toks)
+
+
+SOUP = (OPS + OPS + ['=', '&', '|', '!', '!', '<>', '***', '(', '(', ')', ')', ',', ',', '.', ':', '#', '\\', "'", '"', '[', ']',
+                     'a', 'b', 'f', 'ff', 'if', 'x1', '_', 'f(', 'ff(', 'ff (', 'f(x)', 'ff(x)', 'ff()', 'ff(,)', 'ff(a,)',
+                     '1', '0', '5', '+5', '-5', '1.', '1.5', '.5', '1..', '1.5.3', '1e5', '1e+5', '1.e+5', '1e+', '1e-', '1E+5', '1_0', '0x10',
+                     '1.5e+3', '1.5e-3', '1e+05',
+                     "'s'", "'a\\'b'", "'a\\\\'", "'abc\\'", "'abc", "'\\\\\\'", "'\\'", "''", '"d"', '"a\\"b"', '"a\'b"', '"abc', '""',
+                     '[v]', '[ a b ]', '[a\\]b]', '[]', '[ ]', '[   ]', '[a', '[a]]', '[a\\\\]', '[a\\]', '[ \\]', '[\\]]',
+                     ' ', ' ', '  ', '\t', '\n', '\x0b', '\x1c', '\x85', '\xa0', '\u2003', '\u3000',
+                     '\u20ac', '\u2192', '\U0001f600', '\u200b', '\ufeff'])
+# non-ASCII letters / digits / numerics: outside the model when they end up outside a string or bracketed name
+SOUP_UNI = ['\u00e9', 'a\u00e9', '\u0663', '1\u0663', '1.\u0663', '1e+\u0663', '\u00b2', 'x\u00b2', '\u2167', 'ff\u00e9(', '\u4e2d', 'a\u0663(', "'\u00e9'",
+            '[\u0663]', '\uff11', '\U0001d7d8']
+
+
+def soup_case(rng):
+    n = rng.choice([1, 2, 2, 3, 3, 4, 5, 6, 8, 12])
+    sep = rng.choice(['', ' ', ' ', 'mix'])
+    toks = [rng.choice(SOUP) if rng.random() < 0.97 else rng.choice(SOUP_UNI) for _ in range(n)]
+    if sep == 'mix':
+        return ''.join(t + rng.choice(['', ' ']) for t in toks)
+    return sep.join(toks)
+
+
+def mutate_case(rng, gen):
+    toks, _ = gen.binary(rng.choice([4, 5, 6, 7]))
+    toks = list(toks)
+    kind = rng.choice(['delete', 'insert', 'swap', 'dup', 'replace', 'unbalance', 'trail-op', 'lead-op', 'delchar', 'inschar', 'truncate',
+                       'one-letter-call', 'bad-escape'])
+    if kind == 'delete' and toks:
+        del toks[rng.randrange(len(toks))]
+    elif kind == 'insert':
+        toks.insert(rng.randint(0, len(toks)), rng.choice(SOUP))
+    elif kind == 'swap' and len(toks) >= 2:
+        i = rng.randrange(len(toks) - 1)
+        toks[i], toks[i + 1] = toks[i + 1], toks[i]
+    elif kind == 'dup' and toks:
+        i = rng.randrange(len(toks))
+        toks.insert(i, toks[i])
+    elif kind == 'replace' and toks:
+        toks[rng.randrange(len(toks))] = rng.choice(SOUP)
+    elif kind == 'unbalance':
+        toks.insert(rng.randint(0, len(toks)), rng.choice('()'))
+    elif kind == 'trail-op':
+        toks.append(rng.choice(OPS + ['!', ',']))
+    elif kind == 'lead-op':
+        toks.insert(0, rng.choice(OPS))
+    elif kind == 'one-letter-call':
+        toks.insert(rng.randint(0, len(toks)), rng.choice(['f(x)', 'f()', 'g (1, 2)']))
+    elif kind == 'bad-escape':
+        toks.insert(rng.randint(0, len(toks)), rng.choice(["'a\\'", "'\\\\\\'", '"a\\"', '[a\\]', '[a\\\\]', "'a\\", "'\\x'"]))
+    text = gen.render(toks)
+    if kind == 'delchar' and text:
+        i = rng.randrange(len(text))
+        text = text[:i] + text[i + 1:]
+    elif kind == 'inschar':
+        i = rng.randint(0, len(text))
+        text = text[:i] + rng.choice('()[]\'"\\,.!=<>&|+-*/% \tae1_#\u20ac\u3000' if rng.random() < 0.9 else '\u00e9\u0663') + text[i:]
+    elif kind == 'truncate' and text:
+        text = text[:rng.randrange(len(text))]
+    return kind, text
+
+
+def deep_cases():
+    """nesting up to 50 (groups, unary chains, calls), balanced and not"""
+    for n in (1, 2, 10, 49, 50):
+        yield '(' * n + 'a' + ')' * n
+        yield '(' * n + 'a' + ')' * (n - 1)
+        yield '(' * n + 'a' + ')' * (n + 1)
+        yield '-' * n + 'a'
+        yield '!-' * (n // 2 + 1) + '1'
+        yield 'ff(' * n + ')' * n
+        yield 'ff(' * n + 'x' + ')' * n
+        yield 'ff(a, ' * n + 'b' + ')' * n
+        yield 'ff(a, ' * n + 'b' + ')' * (n - 1)
+        yield '(1 + ' * n + '2' + ' * 3)' * n
+        yield ' + '.join(['a'] * (n + 1))
+        yield ' ** '.join(['a'] * (n + 1))
+        yield ' || a && '.join(['b'] * (n + 1))
+
+
 OPERANDS = [('a', {'variable': 'a'}), ('1', {'number': [1, 1]}), ("'s'", {'string': 's'}),
             ('(b + c)', {'group': {'binary': {'left': {'variable': 'b'}, 'op': '+', 'right': {'variable': 'c'}}}}),
             ('-d', {'unary': {'expr': {'variable': 'd'}, 'op': '-'}}), ('!e', {'unary': {'expr': {'variable': 'e'}, 'op': '!'}}),
             ('fn(x, y)', {'function': {'args': [{'variable': 'x'}, {'variable': 'y'}], 'name': 'fn'}})]
+# operands of the exhaustive text-level enumeration: parenthesised and unary operands, a call, a signed number, a bracketed name
+VARIANT_OPERANDS = [('(p || q)', {'group': {'binary': {'left': {'variable': 'p'}, 'op': '||', 'right': {'variable': 'q'}}}}),
+                    ('-d', {'unary': {'expr': {'variable': 'd'}, 'op': '-'}}),
+                    ('!(e ** f)', {'unary': {'expr': {'group': {'binary': {'left': {'variable': 'e'}, 'op': '**', 'right': {'variable': 'f'}}}}, 'op': '!'}}),
+                    ('--2', {'unary': {'expr': {'unary': {'expr': {'number': [2, 1]}, 'op': '-'}}, 'op': '-'}}),
+                    ('fn(x * y, z)', {'function': {'args': [{'binary': {'left': {'variable': 'x'}, 'op': '*', 'right': {'variable': 'y'}}},
+                                                             {'variable': 'z'}], 'name': 'fn'}}),
+                    ('+5', {'number': [5, 1]}), ('[n m]', {'variable': 'n m'}), ('(g)', {'group': {'variable': 'g'}})]
 
 
 def chain_cases(ctx):
@@ -96,9 +608,41 @@ def chain_cases(ctx):
         yield f[0], f[1], [(rng.choice(OPS),) + rng.choice(OPERANDS) for _ in range(k)]
 
 
-def streams(ctx):
-    parser = fw.impl()['parser']
-    st = ctx.stream('chain', 'operator chains: all 14^k for k<=3 (quick) / k<=4 (thorough) over variables + random chains '
+def load_corpus():
+    path = os.path.join(fw.VERIF, 'harness', 'corpus', 'C02.jsonl')
+    out = []
+    if os.path.exists(path):
+        with open(path, encoding='utf-8') as fh:
+            for ln in fh:
+                ln = ln.strip()
+                if ln and not ln.startswith('#'):
+                    out.append(json.loads(ln)['text'])
+    return out
+
+
+# ---------------------------------------------------------------------------------------------------------------------
+# Streams
+# ---------------------------------------------------------------------------------------------------------------------
+
+def _witness(ctx, text, bad):
+    for oracle, want, got in bad:
+        ctx.witness(oracle, text, want, got)
+
+
+def compare_text(ctx, stream, st, text, resp, tags, expected=None, nontrivial=True, modelled=True):
+    """One text: implementation vs model (if the text is inside the model's domain) + the oracles on the implementation."""
+    res = run_impl(text)
+    out = impl_out(res)
+    tag = 'accept' if res[0] == 'ok' else ('reject:' + res[1] if res[0] == 'err' else 'exception')
+    st.case(text, nontrivial=nontrivial, tags=list(tags) + [tag, 'modelled' if modelled else 'impl-only'])
+    if modelled:
+        ctx.compare(stream, text, out, model_out(resp))
+    _witness(ctx, text, impl_oracles(text, res, expected))
+    return res
+
+
+def stream_chain(ctx):
+    st = ctx.stream('chain', 'token level: operator chains, all 14^k for k<=3 (quick) / k<=4 (thorough) over variables + random chains '
                              '(length<=9) over literal/group/unary/call operands; non-trivial = at least 2 operators')
     cases = list(chain_cases(ctx))
     reqs = [{'op': 'chain', 'first': f, 'rest': [[op, e] for op, _, e in rest]} for _, f, rest in cases]
@@ -106,10 +650,8 @@ def streams(ctx):
     for (ftxt, f, rest), resp in zip(cases, resps):
         text = ftxt + ''.join(f' {op} {t}' for op, t, _ in rest)
         st.case(text, nontrivial=len(rest) >= 2, tags=[f'len{len(rest)}'])
-        try:
-            impl = canon_expr(parser.parse_expression(text))
-        except Exception as exc:  # pylint: disable=broad-except
-            impl = {'error': type(exc).__name__}
+        res = run_impl(text)
+        impl = res[1] if res[0] == 'ok' else impl_out(res)
         model = resp.get('expr', resp)
         ctx.compare('chain', text, impl, model)
         # the property's own oracle on the implementation
@@ -119,33 +661,142 @@ def streams(ctx):
     st.exhaustive = False
 
 
+def stream_chaintext(ctx):
+    kmax = ctx.scale(3, 4)
+    st = ctx.stream('chaintext', f'text level, exhaustive: every operator sequence of length 1..{kmax} (14^k), once over plain variables and '
+                                 'once over parenthesised / unary / call / signed-number / bracketed operands (rotating through 8 operand '
+                                 'shapes), parsed from text by implementation and model, tree compared with the precedence-climbing '
+                                 'reference; non-trivial = at least 2 operators')
+    cases = []
+    nv = len(VARIANT_OPERANDS)
+    for k in range(1, kmax + 1):
+        for idx, ops in enumerate(itertools.product(OPS, repeat=k)):
+            names = [chr(ord('a') + i) for i in range(k + 1)]
+            plain = [(n, {'variable': n}) for n in names]
+            variant = [VARIANT_OPERANDS[(idx + 3 * i) % nv] for i in range(k + 1)]
+            for label, operands, tight in (('plain', plain, False), ('variant', variant, idx % 2 == 1)):
+                sep = '' if tight else ' '
+                text = operands[0][0] + ''.join(sep + op + sep + o[0] for op, o in zip(ops, operands[1:]))
+                want = climb(operands[0][1], [(op, o[1]) for op, o in zip(ops, operands[1:])])
+                cases.append((text, want, k, label))
+    resps = ctx.driver.batch([{'op': 'parse', 'text': c[0]} for c in cases])
+    for (text, want, k, label), resp in zip(cases, resps):
+        compare_text(ctx, 'chaintext', st, text, resp, [f'len{k}', label], expected=want, nontrivial=k >= 2)
+        if resp.get('expr') != want:
+            ctx.disagree('chaintext', text, {'expected-by-construction': want}, resp, 'model differs from the precedence-climbing reference')
+    st.exhaustive = True
+
+
+def stream_expr(ctx):
+    st = ctx.stream('expr', 'grammar-directed random expressions to depth 8 (numbers incl. 1. / 1.5e+3 / +5 / 25-digit, strings with both '
+                            'quotes and escapes, identifiers incl. keywords, [bracketed names], calls with 0-4 args, groups, unary chains, '
+                            'all 14 binary operators, random whitespace incl. tabs/newlines/Unicode spaces) rendered to text; implementation '
+                            'vs model vs the tree known by construction (operands combined by the precedence-climbing reference); '
+                            'non-trivial = at least 3 nodes')
+    rng = ctx.rng('expr')
+    gen = Gen(rng)
+    cases = []
+    for i in range(ctx.scale(4000, 70000)):
+        maxdepth = 8 if i % 4 else rng.randint(1, 4)
+        toks, want = gen.binary(8 - maxdepth + 1, 0, 8)
+        text = gen.render(toks)
+        if text.count('\\') > MAX_BACKSLASHES or len(text) > 4000:
+            continue
+        cases.append((text, want))
+    resps = ctx.driver.batch([{'op': 'parse', 'text': c[0]} for c in cases])
+    for (text, want), resp in zip(cases, resps):
+        depth, nodes, kinds = expr_stats(want)
+        tags = [f'depth{min(depth, 12)}'] + sorted(kinds) + (['non-ascii'] if not text.isascii() else [])
+        compare_text(ctx, 'expr', st, text, resp, tags, expected=round_numbers(want), nontrivial=nodes >= 3)
+        if resp.get('expr') != want:
+            ctx.disagree('expr', text, {'expected-by-construction': want}, resp, 'model differs from the tree known by construction')
+
+
+def stream_tokens(ctx):
+    st = ctx.stream('tokens', 'malformed / arbitrary texts: hand-picked corpus, nesting to depth 50, random token strings (operators, '
+                              'near-operators, parens, commas, good and broken numbers/strings/brackets, one-letter calls, ASCII and Unicode '
+                              'whitespace, non-ASCII symbols/letters/digits) and single mutations of valid expressions (delete/insert/swap/'
+                              'duplicate/replace a token, unbalanced parens, trailing/leading operator, bad escapes, character edits, '
+                              'truncation): accept/reject agreement, equal tree on accept, equal error text and column on reject; texts with '
+                              'non-ASCII letters/digits are checked on the implementation only; non-trivial = at least 2 characters')
+    rng = ctx.rng('tokens')
+    gen = Gen(rng, rare_ws=0.03, unicode_letters=False)
+    cases = [('corpus', t) for t in load_corpus()] + [('deep', t) for t in deep_cases()]
+    for _ in range(ctx.scale(5000, 120000)):
+        cases.append(('soup', soup_case(rng)))
+    for _ in range(ctx.scale(5000, 120000)):
+        kind, text = mutate_case(rng, gen)
+        cases.append(('mut-' + kind, text))
+    cases = [(k, t) for k, t in cases if t.count('\\') <= MAX_BACKSLASHES and len(t) <= 4000]
+    modelled = [in_model(t) for _, t in cases]
+    resps = iter(ctx.driver.batch([{'op': 'parse', 'text': t} for (_, t), m in zip(cases, modelled) if m]))
+    for (kind, text), m in zip(cases, modelled):
+        resp = next(resps) if m else None
+        compare_text(ctx, 'tokens', st, text, resp, [kind], nontrivial=len(text) >= 2, modelled=m)
+
+
+def streams(ctx):
+    stream_chain(ctx)
+    stream_chaintext(ctx)
+    stream_expr(ctx)
+    stream_tokens(ctx)
+
+
 def search(ctx):
-    """Directed search: chains containing each ordered operator pair (a changed table entry shows up there)."""
-    parser = fw.impl()['parser']
+    """Directed search on the implementation alone: every ordered operator triple (a changed table entry or a changed spine
+    walk shows up there), the corpus, deep nesting, and a larger budget of generated / mutated texts through all oracles."""
     for a, b, c in itertools.product(OPS, repeat=3):
         text = f'w {a} x {b} y {c} z'
         rest = [(a, {'variable': 'x'}), (b, {'variable': 'y'}), (c, {'variable': 'z'})]
         want = climb({'variable': 'w'}, rest)
-        try:
-            impl = canon_expr(parser.parse_expression(text))
-        except Exception as exc:  # pylint: disable=broad-except
-            impl = {'error': type(exc).__name__}
+        res = run_impl(text)
+        impl = res[1] if res[0] == 'ok' else impl_out(res)
         if impl != want:
             ctx.witness('precedence-climbing', text, want, impl)
+            return
+    for text in load_corpus() + list(deep_cases()):
+        bad = impl_oracles(text)
+        if bad:
+            _witness(ctx, text, bad)
+            return
+    rng = ctx.rng('search')
+    gen = Gen(rng)
+    for i in range(ctx.scale(30000, 300000)):
+        if i % 3 == 0:
+            toks, want = gen.binary(rng.randint(1, 6))
+            text, expected = gen.render(toks), round_numbers(want)
+        elif i % 3 == 1:
+            text, expected = mutate_case(rng, gen)[1], None
+        else:
+            text, expected = soup_case(rng), None
+        if text.count('\\') > MAX_BACKSLASHES:
+            continue
+        bad = impl_oracles(text, expected=expected)
+        if bad:
+            _witness(ctx, text, bad)
             return
 
 
 def replay(witness):
-    parser = fw.impl()['parser']
-    try:
-        impl = canon_expr(parser.parse_expression(witness['input']))
-    except Exception as exc:  # pylint: disable=broad-except
-        impl = {'error': type(exc).__name__}
-    return impl != witness['expected']
+    text = witness['input']
+    oracle = witness.get('oracle')
+    res = run_impl(text)
+    if oracle in ('precedence-climbing', 'tree-by-construction'):
+        want = witness['expected']
+        want = want.get('expr', want) if oracle == 'tree-by-construction' else want
+        return not (res[0] == 'ok' and res[1] == want)
+    return any(name == oracle for name, _, _ in impl_oracles(text, res))
 
-LEVEL_TEXT = ('Theorems for chains of any length over any operands: the generated BINARY_REORDER table is exactly the 8-level precedence '
-              'relation; the chain parser keeps the token sequence, yields a precedence/left-associativity respecting tree, and that tree is '
-              'unique (completeness by reconstruction). The table is regenerated from parser.py on every run; the chain algorithm and the '
-              'token scanners are tied to parse_expression by differential correspondence and a precedence-climbing oracle.')
-LEVEL_NOTE = ('Trusted: Lean kernel; extract.py; correspondence harness. Modelled not verified: CPython re (scanners re-implemented by hand), '
-              'float(text). Theorems are about the Lean model of _parse_binary_expression; the scanner layer is correspondence-strength.')
+
+LEVEL_TEXT = ('Theorems, for texts of any length and nesting: the generated BINARY_REORDER table is exactly the 8-level precedence relation; '
+              'the chain parser keeps the token sequence, yields a precedence/left-associativity respecting tree, and that tree is unique '
+              '(completeness by reconstruction); the text-level parser (mirror of parse_expression) builds every binary chain with exactly '
+              'that chain parser over the operands it scanned, so every accepted tree is hereditarily precedence-respecting with unary '
+              'operands and groups as leaves; accepted text is a whitespace-separated spelling of exactly the token sequence of the returned '
+              'tree (nothing dropped or re-interpreted); the only failure is a parser error with 1 <= column <= length+1; fuel = text length '
+              'never runs out. The table and the regex sources are regenerated from parser.py on every run; the scanners and the parser are '
+              'tied to parse_expression by differential correspondence (exhaustive 14^k chains as text, random expressions to depth 8, '
+              'malformed token strings) and by an independent precedence-climbing reference parser run against the implementation.')
+LEVEL_NOTE = ('Trusted: Lean kernel; extract.py; correspondence harness and its reference parser. Modelled not verified: CPython re (each '
+              'token pattern re-implemented by hand, backtracking included; \\w and \\d on ASCII only - non-ASCII identifiers/digits are '
+              'checked on the implementation only), float(text). Theorems are about the Lean model of parse_expression.')
